@@ -716,7 +716,7 @@ SEQ_OTHER_OPS = {'seq.++', 'seq.unit', 'seq.empty', 'seq.extract', 'seq.contains
 def abstract_seqs(terms):
     """Sound abstraction for refutation only: sequences become an uninterpreted sort with
     nth/len functions (len >= 0).  Returns None when other sequence operations occur."""
-    if any(uses_op(t, SEQ_OTHER_OPS) for t in terms):
+    if any(uses_op(t, SEQ_OTHER_OPS - {'seq.extract'}) for t in terms):
         return None
 
     def asort(srt):
@@ -728,10 +728,21 @@ def abstract_seqs(terms):
             return '(%s %s)' % (head, ' '.join(asort(p) for p in parts))
         return srt
     lens = {}
+    extracts = {}
 
-    def rec(t):
-        args = [rec(a) for a in t.args]
+    class _Bail(Exception):
+        pass
+
+    def rec(t, inq=False):
+        args = [rec(a, inq or t.op in ('forall', 'exists', 'set.filter')) for a in t.args]
         srt = asort(t.sort)
+        if t.op == 'seq.extract':
+            # closed slices only: an uninterpreted constant-like term with its exact len/nth axioms
+            if inq:
+                raise _Bail()
+            e = T('app', args, srt, 'extract<%s>' % srt)
+            extracts[repr(e)] = (e, args)
+            return e
         if t.op == 'seq.nth':
             return T('app', args, srt, 'nth<%s>' % args[0].sort)
         if t.op == 'seq.len':
@@ -742,7 +753,22 @@ def abstract_seqs(terms):
         if t.op == 'set.filter':
             return T(t.op, args, srt, (t.data[0], asort(t.data[1])))
         return T(t.op, args, srt, t.data)
-    out = [rec(t) for t in terms]
+    try:
+        out = [rec(t) for t in terms]
+    except _Bail:
+        return None
+    for e, (s0, a, n) in extracts.values():
+        ln = lambda x: T('app', (x,), INT, 'len<%s>' % x.sort)  # noqa: E731
+        esort = None
+        for t in [e.sort]:
+            esort = t[len('USeq<'):-1]
+        k = fresh_bound('k', INT)
+        avail = Sub(ln(s0), a)
+        out.append(Eq(ln(e), Ite(And(Le(IntC(0), a), Le(a, ln(s0)), Gt(n, IntC(0))),
+                                 Ite(Le(n, avail), n, avail), IntC(0))))
+        out.append(ForAll([k], Implies(And(Le(IntC(0), k), Lt(k, ln(e))),
+                                       Eq(T('app', (e, k), esort, 'nth<%s>' % e.sort),
+                                          T('app', (s0, Add(a, k)), esort, 'nth<%s>' % s0.sort)))))
     # len >= 0 for every abstract sequence sort in use
     sorts = set()
     for t in out:
